@@ -106,6 +106,9 @@ func (r *Run) Advance(d time.Duration) {
 
 // BeginStep draws the per-step salt and publishes it; returns false when the step cap is hit.
 func (r *Run) BeginStep() bool {
+	// the reaction to the previous step's stimulus runs to quiescence under the previous salt: the salt decides
+	// select/map orders inside the repository code, it must not change while that code is still running
+	r.Settle()
 	n := r.W.NextStep()
 	if n-r.steps0 > r.stepCap {
 		return false
